@@ -273,7 +273,7 @@ def lookupAlias (al : List (String × String)) (n : String) : Option String :=
 
 def keywords : List String :=
   ["if", "then", "else", "elif", "fi", "while", "until", "do", "done", "{", "}", "!", "for", "case",
-   "esac", "in", "function"]
+   "esac", "in", "function", "[[", "]]", "namespace", "select"]
 
 /-- tokens that end a compound list (`TokenId::is_clause_delimiter`) -/
 def isClauseDelim (t : Tok) : Bool :=
